@@ -39,6 +39,7 @@ Qed.
 Lemma resolves_ok_spec :
   forall r, resolves_ok r = true <->
     exists x, r = inr x /\
+      (exists jm fs, r_jm x = Some jm /\ r_fs x = Some fs) /\
       (exists c, r_rm x = inr c) /\
       (exists l, r_lm x = inr l /\ l_order l <> [] /\ l_skipped l = [] /\
                  forall n, In n (l_order l) ->
@@ -49,9 +50,11 @@ Proof.
   intros [e|x]; simpl; split.
   - discriminate.
   - intros [x [H _]]; discriminate.
-  - intro H. repeat rewrite andb_true_iff in H. destruct H as [[[[Hrm Hlm] Hs] He] Ha].
+  - intro H. repeat rewrite andb_true_iff in H. destruct H as [[[[[Hep Hrm] Hlm] Hs] He] Ha].
     exists x. split; [reflexivity|].
-    unfold ok_rm, ok_lms, ok_sched, ok_exec, ok_agent, is_ok in *.
+    unfold ok_endpoints, ok_rm, ok_lms, ok_sched, ok_exec, ok_agent, is_ok in *.
+    destruct (r_jm x) as [jm|]; [|discriminate].
+    destruct (r_fs x) as [fs|]; [|discriminate].
     destruct (r_rm x) as [|c1]; [discriminate|].
     destruct (r_lm x) as [|l]; [discriminate|].
     destruct (r_sched x) as [|c2]; [discriminate|].
@@ -65,10 +68,10 @@ Proof.
       * intros n Hn. rewrite forallb_forall in Hall. specialize (Hall n Hn).
         destruct (assoc n (l_launchers l)) as [c|]; [|discriminate].
         exists c. split; [reflexivity|]. intros ->. discriminate.
-  - intros [y [Hy [[c1 Hrm] [[l [Hlm [Ho [Hk Hall]]]] [[c2 Hs] [[c3 He] [k [ks Ha]]]]]]]].
+  - intros [y [Hy [[jm [fs [Hjm Hfs]]] [[c1 Hrm] [[l [Hlm [Ho [Hk Hall]]]] [[c2 Hs] [[c3 He] [k [ks Ha]]]]]]]]].
     injection Hy as <-.
-    unfold ok_rm, ok_lms, ok_sched, ok_exec, ok_agent, is_ok.
-    rewrite Hrm, Hlm, Hs, He, Ha, Hk.
+    unfold ok_endpoints, ok_rm, ok_lms, ok_sched, ok_exec, ok_agent, is_ok.
+    rewrite Hjm, Hfs, Hrm, Hlm, Hs, He, Ha, Hk.
     assert (Hf : forallb (fun n => match assoc n (l_launchers l) with
                                    | Some c => negb (String.eqb c "None") | None => false end)
                          (l_order l) = true).
